@@ -816,7 +816,7 @@ def ob_search(W, lo, hi, prior=False):
 
 
 def _mk_analyzer(W, A, sched_fn, cfgd, nx, fs, sym):
-    cls = A.SpectrumAnalyzer
+    cls = A["SpectrumAnalyzer"] if isinstance(A, dict) else A.SpectrumAnalyzer
     a = object.__new__(cls)
     a.fs = fs; a.nx = nx; a.verbose = False; a.iscsd = False
     a.config = cfgd
@@ -842,12 +842,14 @@ def ob_plan_forced(W, lo, hi):
         return {"f": rnp.arange(1, nb + 1) * 0.1, "r": rnp.full(nb, 0.1), "b": rnp.arange(1, nb + 1) * 1.0, "L": rnp.full(nb, 10), "K": rnp.full(nb, 1),
                 "navg": rnp.full(nb, 1), "D": [rnp.array([0])] * nb, "O": rnp.zeros(nb), "nf": n}
     cfgd = {"scheduler_func": sched, "scheduler_name": "stub", "final_olap": 0.5, "bmin": 1.0, "Lmin": 1, "Kdes": 10, "force_target_nf": True, "Jdes": target, "band": None, "num_patch_pts": None}
-    a = _mk_analyzer(W, A, sched, cfgd, 10, 1.0, W.sym)
     if W.sym:
-        from symx.shim import clone, clone_module, NumpyShim
+        from symx.shim import clone_module, NumpyShim
         srch = clone_module(U, dict(MIN_JDES=lo, MAX_JDES=hi))["find_Jdes_binary_search"]     # fresh module copy per run: no state across paths
-        planf = clone(A.SpectrumAnalyzer.plan, np=NumpyShim(), find_Jdes_binary_search=srch)
+        GA = clone_module(A, dict(np=NumpyShim(), find_Jdes_binary_search=srch))
+        a = _mk_analyzer(W, GA, sched, cfgd, 10, 1.0, W.sym)
+        planf = GA["SpectrumAnalyzer"].plan
     else:
+        a = _mk_analyzer(W, A.__dict__, sched, cfgd, 10, 1.0, W.sym)
         old = (U.MIN_JDES, U.MAX_JDES)
         U.MIN_JDES, U.MAX_JDES = lo, hi
         planf = A.SpectrumAnalyzer.plan
@@ -906,15 +908,18 @@ def ob_plan(W, Ks, sched_is_lpsd=False):
     stub = (lambda **kw: plan_dict())
     sched_fn = Sm.lpsd_plan if sched_is_lpsd else stub
     cfgd = {"scheduler_func": sched_fn, "scheduler_name": "stub", "final_olap": 0.5, "bmin": 1.0, "Lmin": Lmin, "Kdes": 10, "force_target_nf": False, "Jdes": 5, "band": None, "num_patch_pts": None}
-    a = _mk_analyzer(W, A, sched_fn, cfgd, N, fs, W.sym)
     if W.sym:
-        from symx.shim import clone, NumpyShim
+        from symx.shim import clone_module, NumpyShim
         over = dict(np=NumpyShim())
         if sched_is_lpsd:
             over["lpsd_plan"] = Sm.lpsd_plan
+        GA = clone_module(A, over)
+        a = _mk_analyzer(W, GA, sched_fn, cfgd, N, fs, W.sym)
+        if sched_is_lpsd:
             a.config["scheduler_func"] = _LpsdLike(stub, Sm.lpsd_plan)
-        planf = clone(A.SpectrumAnalyzer.plan, **over)
+        planf = GA["SpectrumAnalyzer"].plan
     else:
+        a = _mk_analyzer(W, A, sched_fn, cfgd, N, fs, W.sym)
         planf = A.SpectrumAnalyzer.plan
         if sched_is_lpsd:
             return
